@@ -14,11 +14,12 @@ type Effects struct {
 	fheap  map[string]string // arrays written only at addresses allocated during the effect (fresh objects)
 	ghost  map[string]bool
 	locals map[*ssa.Alloc]bool
+	lpaths map[*ssa.Alloc][][]int // field paths of a local struct variable that are stored to ([] = the whole variable)
 	iters  []ssa.Value
 }
 
 func newEffects() *Effects {
-	return &Effects{heap: map[string]string{}, fheap: map[string]string{}, ghost: map[string]bool{}, locals: map[*ssa.Alloc]bool{}}
+	return &Effects{heap: map[string]string{}, fheap: map[string]string{}, ghost: map[string]bool{}, locals: map[*ssa.Alloc]bool{}, lpaths: map[*ssa.Alloc][][]int{}}
 }
 
 func (a *Effects) add(b *Effects) bool {
@@ -73,6 +74,27 @@ func (m *Model) cellLeaves(t types.Type, out map[string]string) {
 	out["M$"+m.typeKey(t)] = m.sortOf(t)
 }
 
+// fieldPath: the chain of field indices from the root allocation to addr (nil when addr is the
+// allocation itself or the chain is not made of field selections only).
+func fieldPath(v ssa.Value) []int {
+	var rev []int
+	for {
+		switch x := v.(type) {
+		case *ssa.FieldAddr:
+			rev = append(rev, x.Field)
+			v = x.X
+		case *ssa.Alloc:
+			out := make([]int, 0, len(rev))
+			for i := len(rev) - 1; i >= 0; i-- {
+				out = append(out, rev[i])
+			}
+			return out
+		default:
+			return nil
+		}
+	}
+}
+
 func rootAlloc(v ssa.Value) *ssa.Alloc {
 	for {
 		switch x := v.(type) {
@@ -96,8 +118,9 @@ func rootAlloc(v ssa.Value) *ssa.Alloc {
 func (m *Model) storeTargets(addr ssa.Value, out *Effects, scope map[*ssa.BasicBlock]bool) {
 	target := out.heap
 	if a := rootAlloc(addr); a != nil {
+		out.locals[a] = true // (heap-allocated locals may be modelled as locals, see lazyOK)
+		out.lpaths[a] = append(out.lpaths[a], fieldPath(addr))
 		if !a.Heap {
-			out.locals[a] = true
 			return
 		}
 		// the object was allocated by this very function (within the region considered): a write to a fresh address
